@@ -2,13 +2,16 @@ pub mod c08;
 pub mod c09;
 pub mod c10;
 pub mod c11;
+pub mod c12;
+pub mod c13;
 pub mod c14;
+pub mod c15;
 pub mod c16;
 
 use crate::engine::PropertyDef;
 
 pub fn all_ids() -> Vec<&'static str> {
-    vec!["C08", "C09", "C10", "C11", "C14", "C16"]
+    vec!["C08", "C09", "C10", "C11", "C12", "C13", "C14", "C15", "C16"]
 }
 
 pub fn property(id: &str) -> Option<PropertyDef> {
@@ -17,7 +20,10 @@ pub fn property(id: &str) -> Option<PropertyDef> {
         "C09" => Some(c09::def()),
         "C10" => Some(c10::def()),
         "C11" => Some(c11::def()),
+        "C12" => Some(c12::def()),
+        "C13" => Some(c13::def()),
         "C14" => Some(c14::def()),
+        "C15" => Some(c15::def()),
         "C16" => Some(c16::def()),
         _ => None,
     }
